@@ -86,8 +86,8 @@ def execute(scenario):
             env, X0, Y0, rate0 = xy.make_env(scenario)
         except Exception as e:
             # legitimate refusals: not enough data for the window / empty ranges
-            return {"violations": [], "digest": core.digest(["build", type(e).__name__]), "probes": {"build_refused": 1}, "faults": {},
-                    "stats": {"ops": 1, "build_refused": 1}, "trace": "refused:" + type(e).__name__, "nontrivial": False}
+            return {"violations": [], "digest": core.digest(["build", core.exc_name(e)]), "probes": {"build_refused": 1}, "faults": {},
+                    "stats": {"ops": 1, "build_refused": 1}, "trace": "refused:" + core.exc_name(e), "nontrivial": False}
         prior = scenario.get("prior")
         if prior:
             try:
@@ -102,8 +102,8 @@ def execute(scenario):
         try:
             recs = xy.run_episode(env, scenario["actions"], fold=scenario.get("fold"), np_seed=scenario.get("np_seed", 0))
         except Exception as e:
-            return {"violations": [], "digest": core.digest(["reset", type(e).__name__]), "probes": {"reset_refused": 1}, "faults": {},
-                    "stats": {"ops": 1, "reset_refused": 1}, "trace": "reset-refused:" + type(e).__name__, "nontrivial": False}
+            return {"violations": [], "digest": core.digest(["reset", core.exc_name(e)]), "probes": {"reset_refused": 1}, "faults": {},
+                    "stats": {"ops": 1, "reset_refused": 1}, "trace": "reset-refused:" + core.exc_name(e), "nontrivial": False}
         EX = env.X
         EY = env.Y
         space = env.observation_space
